@@ -184,9 +184,9 @@ theorem conv_digit_i64_eq (c : UInt8) (hc : isDig c = true) :
 theorem expDigit_ofNat (c : UInt8) (v : Nat) (hc : isDig c = true) (hv : v < 10^9) :
     expDigit c (Int64.ofNat v) = Int64.ofNat (v * 10 + dval c) := by
   unfold expDigit
-  have hlt : Int64.ofNat v < (1000000000 : Int64) := by
+  have hlt : Int64.ofNat v < (288230376151711744 : Int64) := by
     rw [Int64.lt_iff_toInt_lt, Int64.toInt_ofNat_of_lt (by omega)]
-    show (v : Int) < 1000000000
+    show (v : Int) < 288230376151711744
     omega
   rw [if_pos hlt, conv_digit_i64_eq c hc, Int64.ofNat_add, Int64.ofNat_mul]
   rfl
@@ -471,7 +471,6 @@ theorem finish_final (g : Globals) (neg : Bool) (s : S2) (m nf : Nat) (en : Bool
 
 /-- **canonical numerals**: at most 19 significand digits, no separators, exponent below 10^9 -/
 theorem parseNumber_canonical (g : Globals) (d : Go.Bytes) (neg sep : Bool)
-    (hred : ∀ rm neg sig exp trunc, ∃ r, Gen.RoundingMode.reduce128 rm neg sig exp trunc = .ok r)
     (hsz : d.size < 2^63)
     (ip fp sgn ep : List UInt8) (hasDot hasExp : Bool) (ech : UInt8)
     (hip : ∀ c ∈ ip, isDig c = true) (hfp : ∀ c ∈ fp, isDig c = true) (hep : ∀ c ∈ ep, isDig c = true)
@@ -483,7 +482,7 @@ theorem parseNumber_canonical (g : Globals) (d : Go.Bytes) (neg sep : Bool)
     Gen.parseNumber g d neg sep =
       canonResult g neg (val (ip ++ fp))
         ((if sgn = [45] then -(val ep : Int) else (val ep : Int)) - (fp.length : Int)) := by
-  rw [parseNumber_eq_run2 g d neg sep hred hsz, hd]
+  rw [parseNumber_eq_run2 g d neg sep hsz, hd]
   obtain ⟨s, hs, hrun⟩ := run2_significand sep ip fp hasDot hip hfp hfp0 hne h19
   rw [hrun]
   have hall : ∀ c ∈ ip ++ fp, isDig c = true := by
